@@ -290,7 +290,7 @@ class Fn:
         if n >= len(ops):
             return f'cap{n}'
         t = pf.term_operand(ops[n], depth + 1)
-        return '^' + t if not t.startswith('^') or pf.meta['kind'] != 'Closure' else '^' + t
+        return lift_capture(t)
 
     def term_local(self, l, depth=0, at=None):
         if 1 <= l <= self.argc:
@@ -578,6 +578,17 @@ def norm_cmp(op, a, b, prim=False, ty=None):
         a, b = b, a
     r = f'{op}{tag}({a},{b})'
     return '!' + r if neg else r
+
+
+_LEAF = re.compile(r'(?<![\w.@:#])(\^*)(arg\d+\b|var\(\w+\)|rec\(_\d+\)|cap\d+\b)')
+
+
+def lift_capture(t):
+    """a value of the enclosing body seen from inside a closure: one more `^` on every leaf that names a
+    parameter / local of the enclosing body, so that `^f(arg1)` and `f(^arg1)` - the same value, computed
+    outside or inside the closure - render alike"""
+    r = _LEAF.sub(lambda m: '^' + m.group(1) + m.group(2), t)
+    return r if r != t else '^' + t
 
 
 # ------------------------------------------------------------------ program
